@@ -12,7 +12,7 @@ from vlib.wire import Wire, normalise, same_json
 PROP = 'C14'
 MANIFEST = dict(
     text="Program-quantified symbolic check of JsonSchemaValidator (+ the real, pure-Python jsonschema 3.2.0) through the real dispatchers: signatures of 1..2 (quick) / 1..3 (thorough) parameters with / without defaults, "
-         "per-parameter schema fragments {integer, string, boolean, array, object, enum, integer with minimum/maximum} plus required / additionalProperties:false, positional / named passing, a context parameter, a parameter removed by the exclusion predicate. "
+         "per-parameter schema fragments {integer, string, boolean, array, object, enum, integer with minimum/maximum} plus required (also for parameters that have a Python default, i.e. a schema stricter than the signature) / additionalProperties:false, positional / named passing, a context parameter, a parameter removed by the exclusion predicate. "
          "Argument values are symbolic within bounded domains (ints in {-1,0,1,2,3,10,11}, strings in {'', 'a', 'b'}, both booleans) per concrete JSON kind. Oracle: executed <=> binds and a reference semantics of the schema fragment holds for the bound arguments; "
          "otherwise -32602 whose data survives the server JSON encoder, body not run; accepted arguments reach the method unchanged; the context / excluded parameters cannot be set by the client.",
     ref='5 C14',
@@ -56,6 +56,10 @@ def obligations(tier):
             if disp == 'async' and tier == 'quick' and fa not in ('integer', 'enum'):
                 continue
             obs.append({'h': 'validate', 'disp': disp, 'params': [[fa, False, va], [fb, True, vb]], 'passing': passing, 'extra': 'none'})
+        for frag, vk, passing in it.product(('integer', 'enum'), ('int', 'absent'), ('pos', 'named')):
+            obs.append({'h': 'validate', 'disp': disp, 'params': [[frag, True, vk]], 'passing': passing, 'extra': 'reqall'})
+            for vb in ('int', 'absent'):
+                obs.append({'h': 'validate', 'disp': disp, 'params': [[frag, True, vk], ['integer', True, vb]], 'passing': passing, 'extra': 'reqall'})
         for extra in ('ctx', 'excluded', 'unknown', 'strict'):
             for frag, vk, passing in it.product(('integer', 'enum', 'string'), ('int', 'str'), ('pos', 'named')):
                 obs.append({'h': 'validate', 'disp': disp, 'params': [[frag, False, vk]], 'passing': passing, 'extra': extra})
@@ -133,7 +137,8 @@ def h_validate(ob):
         names = [f'p{i}' for i in range(len(params))]
         props = {n: _fragment(p[0]) for n, p in zip(names, params)}
         required = [n for n, p in zip(names, params) if not p[1]]
-        schema = {'type': 'object', 'properties': props, 'required': required}
+        schema_required = list(names) if extra == 'reqall' else required     # 'reqall': the schema demands more than the signature
+        schema = {'type': 'object', 'properties': props, 'required': schema_required}
         if extra == 'strict':
             schema['additionalProperties'] = False
         validator = jsv_mod.JsonSchemaValidator(exclude_param=(lambda name, ann, default: name == 'dep') if extra == 'excluded' else None)
@@ -193,6 +198,8 @@ def h_validate(ob):
                     binds = False
             wire_params = mapping
         valid = binds
+        if binds and any(n not in provided for n in schema_required):
+            valid = False
         if binds:
             for n, p, v in zip(names, params, vals):
                 if n in provided and not _conforms(p[0], p[2], v[1]):
